@@ -230,6 +230,34 @@ func checkCodec(w *World, r *Report, rule string) {
 	}
 	r.Check(fresh, rule, "codec:fresh-message", "the active deserializer returns a message created by the call itself", w.fnPos(des),
 		detail+": every inbound message of that type is the same object, a later payload overwrites the ones delivered before")
+	// the type is the one the message names, by its full name and nothing less (a lookup that strips or rewrites the
+	// name — FindMessageByURL drops everything up to the last '/' — decodes a payload as a type the peer did not name)
+	{
+		okN := true
+		detail := ""
+		n := 0
+		for _, in := range w.insOf(des) {
+			c := callOf(in)
+			if c == nil || c.StaticCallee() == nil {
+				continue
+			}
+			f := c.StaticCallee()
+			if f.Pkg != nil && strings.HasSuffix(f.Pkg.Pkg.Path(), "reflect/protoregistry") {
+				n++
+				if f.Name() != "FindMessageByName" {
+					okN, detail = false, "the type is looked up with "+f.Name()
+					continue
+				}
+				if p := w.pathOf(c.Args[len(c.Args)-1]); p != "P2" && !(strings.HasPrefix(p, "conv<") && strings.HasSuffix(p, ">(P2)")) {
+					okN, detail = false, "the type is looked up by "+p+", not by the message's type name"
+				}
+			}
+		}
+		if n > 0 {
+			r.Check(okN, rule, "codec:type-by-exact-name", "the active deserializer resolves the message type by the full type name it was given", w.fnPos(des),
+				detail+": a type name the sender never registered is accepted and decoded as some other type")
+		}
+	}
 	// what is a valid encoding is the codec's business alone: Deserialize takes no decision of its own on the payload
 	// bytes (a message whose fields are all at their default encodes to zero bytes; a length test refuses it)
 	{
